@@ -13,10 +13,10 @@ Open Scope string_scope.
 Theorem simplifier_dispatch_matches_source : forall n,
   simplifier_dispatch n =
   if nt_eqb n NT_SYMBOL || nt_in G_CONSTANTS n then "walk_identity" else default_handler n.
-Proof. apply node_type_case. vm_compute. repeat constructor. Qed.
+Proof. apply by_table. vm_compute. reflexivity. Qed.
 
 Theorem simplifier_all_defined_in_class : forall n, simplifier_origin n = "Simplifier".
-Proof. apply node_type_case. vm_compute. repeat constructor. Qed.
+Proof. apply by_table. vm_compute. reflexivity. Qed.
 
 Theorem walk_identity_is_the_leaf_arm : forall ora o args,
   simplifier_dispatch (nt_of_op o) = "walk_identity" -> rule ora o args = Some (T o args).
